@@ -83,17 +83,20 @@ func maxGoroutineID(stacks string) int {
 
 // shareSpinSignature runs outside the bubble (real time). A share source whose ack timer is armed while it has
 // nothing to fetch or forget loops through shareFetch -> shareAck(nil) without blocking and starts a callback
-// goroutine per turn: goroutine ids grow by thousands per 100 ms while virtual time stands still.
-func shareSpinSignature() string {
+// goroutine per turn: goroutine ids grow by hundreds per 100 ms while virtual time stands still and nothing is logged.
+// Such a scenario is inconclusive (the spin ends with the 1 s ack timer in real time; it is outside C12's text).
+func shareSpinSignature(log *sim.Log) string {
 	grab := func() string {
 		buf := make([]byte, 8<<20)
 		return string(buf[:runtime.Stack(buf, true)])
 	}
+	n0 := log.Len()
 	a := grab()
 	time.Sleep(100 * time.Millisecond)
 	b := grab()
 	growth := maxGoroutineID(b) - maxGoroutineID(a)
-	if growth > 200 && strings.Contains(b, "kgo.(*source).loopShareFetch") {
+	// the scenario stands still (no event logged meanwhile) while goroutines are created at a high rate
+	if growth > 200 && log.Len() == n0 && strings.Contains(b, "kgo.(*source).loopShareFetch") {
 		return fmt.Sprintf("SPIN:acktimer:%d", growth)
 	}
 	return fmt.Sprintf("NOSPIN:%d", growth)
@@ -127,9 +130,29 @@ func runShare(t *testing.T, tk []string) string {
 	now := func() int64 { return time.Since(start).Milliseconds() }
 	// what a HANG outcome shows: the log so far and, measured from outside the bubble, whether goroutines are being
 	// created at a high rate under a loopShareFetch frame while the scenario stands still (the ack-timer spin)
-	partial := func() string { return log.String() + " " + shareSpinSignature() }
+	var spinSeen atomic.Value // the signature that made the harness give up
+	partial := func() string {
+		sig, _ := spinSeen.Load().(string)
+		if sig == "" {
+			sig = shareSpinSignature(log)
+		}
+		if strings.HasPrefix(sig, "SPIN") {
+			hx.St.Inc("scen.share.inconclusive-ack-timer-spin")
+		}
+		return log.String() + " " + sig
+	}
 	sim.Partial.Store(&partial)
 	defer sim.Partial.Store(nil)
+	giveUp := func() bool {
+		sig := shareSpinSignature(log)
+		if strings.HasPrefix(sig, "SPIN") {
+			spinSeen.Store(sig)
+			return true
+		}
+		return false
+	}
+	sim.GiveUp.Store(&giveUp)
+	defer sim.GiveUp.Store(nil)
 
 	// ---- wire view: acknowledgement batches in requests, acknowledge results and acquired ranges in responses
 	var wmu sync.Mutex
